@@ -159,7 +159,8 @@ let gen_history (idx : int) (prof : profile) (oc : out_channel) =
       | 4 | 5 | 6 -> pick names
       | 7 -> (match nmap_to_list !s.gw_registered with [] -> pick names | l -> let (_, nm) = pick l in String.concat "" (List.map (fun x -> String.make 1 (Char.chr (int_of_n x))) nm))
       | _ -> "new/" ^ string_of_int (rnd 4) in
-    let mid = if qos = 0 then 0 else if rnd 4 = 0 then some_mid () else if rnd 10 = 0 then 0 else fresh_mid () in
+    (* a conforming broker never uses packet identifier 0 *)
+    let mid = if qos = 0 then 0 else if rnd 4 = 0 then max 1 (some_mid ()) else fresh_mid () in
     MqPublish (rnd 8 = 0, nn qos, coin (), bs topic, nn mid, payload ()) in
   let malformed () : n list =
     match rnd 6 with
